@@ -189,9 +189,9 @@ Definition cut_height (D : dendrogram) (n_clusters : option nat) (threshold : op
 
 Definition straight_guard (cut : Q) (r : drow) (_ _ : list nat) : bool := qltb (r_height r) cut.
 
-Definition cut_straight (argsort : list Z -> list nat) (D0 : dendrogram) (n_clusters : option nat)
-           (threshold : option Q) (sort_clusters return_dendrogram : bool)
-  : result (list nat * option dendrogram) :=
+(** The state of the [cluster] dict at the call of get_labels, with the dendrogram that was cut. *)
+Definition straight_state (D0 : dendrogram) (n_clusters : option nat) (threshold : option Q)
+           (return_dendrogram : bool) : result (dendrogram * cstate) :=
   match cut_input D0 return_dendrogram with
   | Err e => Err e
   | Ok D =>
@@ -201,24 +201,42 @@ Definition cut_straight (argsort : list Z -> list nat) (D0 : dendrogram) (n_clus
       | Ok cut =>
           match replay (straight_guard cut) n D (init_clusters n) with
           | Err e => Err e
-          | Ok st => get_labels argsort D st sort_clusters return_dendrogram
+          | Ok st => Ok (D, st)
           end
       end
+  end.
+
+Definition cut_straight (argsort : list Z -> list nat) (D0 : dendrogram) (n_clusters : option nat)
+           (threshold : option Q) (sort_clusters return_dendrogram : bool)
+  : result (list nat * option dendrogram) :=
+  match straight_state D0 n_clusters threshold return_dendrogram with
+  | Err e => Err e
+  | Ok (D, st) => get_labels argsort D st sort_clusters return_dendrogram
   end.
 
 (** * cut_balanced *)
 Definition balanced_guard (max_size : nat) (_ : drow) (ci cj : list nat) : bool :=
   Nat.leb (length ci + length cj) max_size.
 
-Definition cut_balanced (argsort : list Z -> list nat) (D : dendrogram) (max_cluster_size : nat)
-           (sort_clusters return_dendrogram : bool) : result (list nat * option dendrogram) :=
+Definition balanced_state (D : dendrogram) (max_cluster_size : nat) : result cstate :=
   let n := S (length D) in
   if Nat.ltb max_cluster_size 2 || Nat.ltb n max_cluster_size then Err ValueError
-  else
-    match replay (balanced_guard max_cluster_size) n D (init_clusters n) with
-    | Err e => Err e
-    | Ok st => get_labels argsort D st sort_clusters return_dendrogram
-    end.
+  else replay (balanced_guard max_cluster_size) n D (init_clusters n).
+
+Definition cut_balanced (argsort : list Z -> list nat) (D : dendrogram) (max_cluster_size : nat)
+           (sort_clusters return_dendrogram : bool) : result (list nat * option dendrogram) :=
+  match balanced_state D max_cluster_size with
+  | Err e => Err e
+  | Ok st => get_labels argsort D st sort_clusters return_dendrogram
+  end.
+
+(** The clusters in dict order (what [np.argsort] is asked to order), for the harness. *)
+Definition straight_clusters (D0 : dendrogram) (n_clusters : option nat) (threshold : option Q)
+           (return_dendrogram : bool) : result (list (list nat)) :=
+  match straight_state D0 n_clusters threshold return_dendrogram with
+  | Err e => Err e | Ok (_, st) => Ok (map snd st) end.
+Definition balanced_clusters (D : dendrogram) (max_cluster_size : nat) : result (list (list nat)) :=
+  match balanced_state D max_cluster_size with Err e => Err e | Ok st => Ok (map snd st) end.
 
 (** * aggregate_dendrogram *)
 
